@@ -631,9 +631,15 @@ def _node_representer(dumper, node):
                     assert tag.startswith('!null')
                     with dumper.force_unquoted():
                         return dumper.represent_scalar(tag, '', style='')
+                if isinstance(data, ConfigScalar):
+                    # write the value the way yaml itself would (e.g. ".inf", "true"), only with our tag:
+                    # strings are quoted by the emitter as needed, everything else has to stay unquoted
+                    plain = dumper.represent_data(data.ayns.native_value)
+                    if isinstance(data, str):
+                        return dumper.represent_scalar(tag, plain.value, style=plain.style)
+                    with dumper.force_unquoted():
+                        return dumper.represent_scalar(tag, plain.value)
                 with dumper.force_unquoted():
-                    if isinstance(data, ConfigScalar):
-                        return dumper.represent_scalar(tag, repr(data._dyn_base(data)))
                     return dumper.represent_scalar(tag, str(data))
             else:
                 if isinstance(data, ConfigScalar):
